@@ -295,6 +295,12 @@ def main(argv):
         for k, v in r.rule_counts.items():
             rules[k] = rules.get(k, 0) + v
     cfgp = checks[prop]
+    entry_pre = {}
+    for u, r in results.items():
+        if r.meta:
+            for f in r.meta["functions"]:
+                if f.get("requires_text") and f["id"] in fns:
+                    entry_pre[f["id"]] = f["requires_text"]
     ev = dict(
         property_id=prop, tier=tier, seed=seed, level=cfgp.get("level", "proof"),
         coverage=dict(
@@ -303,6 +309,7 @@ def main(argv):
             trusted_base=sorted(set(trusted)),
             functions_under_contract=fns,
             samples=[dict(function=o["fn"], obligation=o["label"], kind=o["kind"], discharged=o["ok"]) for o in counted[:60]],
+            entry_preconditions=entry_pre,
             known_finding_labels=["%s::[%s]" % (o["fn"], o["label"]) for o, k in known_hits],
             undecided=undecided,
             back_end="Verus 0.2026.09.13 (Z3 via AIR); per-function obligations discharged modularly against callee contracts",
